@@ -154,10 +154,21 @@ class Sync:
             out['order'] = self.order(args[0]) if args else SEQ_CST
         elif name.startswith('operator ') or name in ('operator bool', 'operator _Bool'):
             out['op'] = 'load'
+        elif name == 'clear' and s.get('rec') == 'std::atomic_flag':
+            out['op'] = 'store'
+            out['value'] = False
+            out['order'] = self.order(args[0]) if args else SEQ_CST
         elif name in ('exchange', 'compare_exchange_weak', 'compare_exchange_strong', 'fetch_add', 'fetch_sub',
                       'fetch_and', 'fetch_or', 'fetch_xor', 'operator++', 'operator--', 'operator+=', 'operator-=',
                       'operator&=', 'operator|=', 'operator^=', 'test_and_set', 'clear'):
             out['op'] = 'rmw'
+            # memory order of the (successful) read-modify-write: the argument after the operand(s); operators are seq_cst
+            pos = {'exchange': 1, 'fetch_add': 1, 'fetch_sub': 1, 'fetch_and': 1, 'fetch_or': 1, 'fetch_xor': 1,
+                   'compare_exchange_weak': 2, 'compare_exchange_strong': 2, 'test_and_set': 0}.get(name)
+            if pos is not None and len(args) > pos:
+                out['order'] = self.order(args[pos])
+            if name == 'exchange' and args:
+                out['value'] = self.const_bool(args[0])
         else:
             out['op'] = 'other'
         return out
